@@ -167,7 +167,7 @@ def main():
     for v in bviol:
         lines.append(f"VIOLATION property={prop} replay={v['replay']}")
     wall = time.time() - t0
-    n_obl = sum(1 for o in obls if o.goal is not None or o.status in ('undecided', 'error'))
+    n_obl = sum(1 for o in obls if (o.goal is not None or o.status in ('undecided', 'error')) and o.status != 'known')
     n_dis = sum(1 for o in obls if o.status == 'valid')
     solver_time = sum(o.time for o in obls)
     files = {os.path.relpath(f, repo_path()): sha(f) for f in sorted(E.I.files_used) if f.startswith(repo_path())}
